@@ -33,12 +33,20 @@ def run(ctx):
     # linearization iteration moves the approximate coordinates by the corrections of the previous one
     r2, pn = sessions.generate(ctx, "c06c", {"Templates": sessions.ALL_TEMPLATES, "NoiseSet": "{1, 2, 3}", "MaxEdits": 1, "EditKinds": '{"PerturbApprox"}',
                                              "KeepNet": 211 if q else 47, "KeepEdit": 1, "Seed": ctx.seed})
-    ctx.note("SurveySession: %d consistent base networks, %d one-edit sessions, %d perturbed noisy networks" % (len(base), len(ed), len(pn)))
+    # omitted approximate coordinates under another order of points / clusters / observations and under other point names: PointData is a map
+    # ordered by id and the approximate-coordinate algorithms walk clusters in document order
+    r4, op = sessions.generate(ctx, "c06k", {"Templates": sessions.ALL_TEMPLATES, "NoiseSet": NOISE, "MaxEdits": 2, "EditKinds": '{"OmitApprox", "Permute", "Rename"}',
+                                             "KeepNet": 211 if q else 11, "KeepEdit": 1, "Seed": ctx.seed})
+    op = [s for s in op if s["edits"][0]["e"]["k"] == "OmitApprox" and s["edits"][1]["e"]["k"] in ("Permute", "Rename")]
+    op = op[:: max(1, len(op) // (300 if q else 6000))]
+    ctx.note("SurveySession: %d consistent base networks, %d one-edit sessions, %d perturbed noisy networks, %d omitted-then-permuted / renamed sessions" % (len(base), len(ed), len(pn), len(op)))
     st0, _, _ = sessions.run_sessions(ctx, base, truth=True, laws=False)
     st1, _, _ = sessions.run_sessions(ctx, ed, truth=True, laws=True)
     st2, _, _ = sessions.run_sessions(ctx, pn, truth=False, laws=True, sigprefix="noisy_")
+    st5, _, _ = sessions.run_sessions(ctx, op, truth=True, laws=True, sigprefix="omitperm_")
     for k in ("runs", "truth_checks", "adjusted"):
-        st1[k] += st2[k]
+        st1[k] += st2[k] + st5[k]
+    st1["law_checks"] += st5["law_checks"]
     # approximate coordinates: every construction history of AcordModel.tla
     K1, K2 = '{"polar", "inter", "resect", "trilat", "trav"}', '{"polar", "polarA", "resectA", "ddb", "fs2"}'
     KALL = '{"polar", "polarA", "polarZ", "inter", "interZ", "resect", "resectA", "trilat", "ddb", "fs2", "trav"}'
@@ -90,7 +98,7 @@ def run(ctx):
     ctx.assume("observation values are computed from the true coordinates by textbook formulas in tools/session.py (trusted, 1e-10)")
     ctx.assume("tolerance 2e-6 m / 2e-7 gon on printed results")
     n = st0["truth_checks"] + st1["truth_checks"]
-    return {"evaluations": st0["runs"] + st1["runs"] + sta["runs"] + stb["runs"] + sth["runs"] + st3d["runs"], "distinct_nontrivial": len(base) + len(ed) + len(pn) + len(ca) + len(cb) + len(ch) + len(c3),
+    return {"evaluations": st0["runs"] + st1["runs"] + sta["runs"] + stb["runs"] + sth["runs"] + st3d["runs"], "distinct_nontrivial": len(base) + len(ed) + len(pn) + len(op) + len(ca) + len(cb) + len(ch) + len(c3),
             "acord_model": {"histories_5pts": len(ca), "histories_4pts_extra": len(cb), "runs": sta["runs"] + stb["runs"], "adjusted": sta["adjusted"] + stb["adjusted"],
                             "points_positioned": sta["points_checked"] + stb["points_checked"], "by_construction": sta["by_construction"],
                             "tlc_invariants": "Determined (constructed points are in the closure), Monotone (added observations never shrink the closure)"},
@@ -101,4 +109,4 @@ def run(ctx):
                               "by_construction": sth["by_construction"]},
             "rule": "final states of SurveySession.tla with noise = 0 (thinned by KeepNet/KeepEdit/Seed); every network is distinct in template, "
                     "optional observations, axes, angle sense or circle orientation; non-trivial = all (each has >= 2 unknown points)",
-            "tlc_states": r0.distinct + r1.distinct + r2.distinct + ra.distinct + rb.distinct + rh.distinct + r3.distinct, "law_checks": st1["law_checks"] + st2["law_checks"], "truth_checks": n, "adjusted": st0["adjusted"] + st1["adjusted"], "exhaustive": False}
+            "tlc_states": r0.distinct + r1.distinct + r2.distinct + r4.distinct + ra.distinct + rb.distinct + rh.distinct + r3.distinct, "law_checks": st1["law_checks"] + st2["law_checks"], "truth_checks": n, "adjusted": st0["adjusted"] + st1["adjusted"], "exhaustive": False}
